@@ -617,7 +617,9 @@ std::string sqf::parser::preprocessor::impl_default::instance::handle_macro(::sq
         bool exit = false;
         char c;
         bool in_string = false;
-        while (!exit && (c = local_fileinfo.next()) != '\0')
+        // 'before' is the end of the previous character: a comment or line continuation that the
+        // reader skips in front of a ',' or ')' is not part of the argument
+        for (size_t before = local_fileinfo.off; !exit && (c = local_fileinfo.next()) != '\0'; before = local_fileinfo.off)
         {
             if (in_string)
             {
@@ -641,11 +643,11 @@ std::string sqf::parser::preprocessor::impl_default::instance::handle_macro(::sq
                 if (rb_counter == 0 && eb_counter == 0 && cb_counter == 0)
                 {
                     local_fileinfo.move_back();
-                    if (local_fileinfo.off - lastargstart > 0)
+                    if (before > lastargstart)
                     {
                         preprocessorfileinfo copy = local_fileinfo;
                         copy.off = lastargstart;
-                        auto handled_param = handle_arg(runtime, copy, original_fileinfo, local_fileinfo.off, param_map);
+                        auto handled_param = handle_arg(runtime, copy, original_fileinfo, before, param_map);
                         params.emplace_back(std::move(handled_param));
 #ifdef DF__SQF_PREPROC__TRACE_MACRO_RESOLVE
                         std::cout << "\x1B[33m[PREPROCESSOR-RS]\033[0m" <<
